@@ -363,18 +363,30 @@ mod verif_in_ctx_pkt {
         session.awaiting_ack.push_back((aid(PUBACK, 7), s0));
         let (st_other, mut rs_other) = mpsc::unbounded::<RxPacket>();
         let (st_this, mut rs_this) = mpsc::unbounded::<RxPacket>();
+        // single-entry registrations unless `two`: a symbolic queue position (the identifier is
+        // read back from coroutine state, hence opaque) over two entries exceeds 40 GB
+        let two = scen >= 10;
+        let scen = scen % 10;
         match scen {
             0 => {
                 session.subscriptions.push_back((SID_OTHER as usize, st_other));
                 core::mem::forget(st_this);
             }
             1 => {
-                session.subscriptions.push_back((SID_OTHER as usize, st_other));
+                if two {
+                    session.subscriptions.push_back((SID_OTHER as usize, st_other));
+                } else {
+                    core::mem::forget(st_other);
+                }
                 session.subscriptions.push_back((SID as usize, st_this));
             }
             _ => {
                 session.subscriptions.push_back((SID as usize, st_this));
-                session.subscriptions.push_back((SID_OTHER as usize, st_other));
+                if two {
+                    session.subscriptions.push_back((SID_OTHER as usize, st_other));
+                } else {
+                    core::mem::forget(st_other);
+                }
                 rs_this.close(); // what dropping the SubscribeStream does
             }
         }
@@ -447,13 +459,16 @@ mod verif_in_ctx_pkt {
             }
         }
         // registrations
+        let n_other = if two || scen == 0 { 1 } else { 0 };
         match scen {
             0 => assert!(session.subscriptions.len() == 1 && session.subscriptions[0].0 == SID_OTHER as usize, "other registrations untouched"),
-            1 => assert!(session.subscriptions.len() == 2 && session.subscriptions[0].0 == SID_OTHER as usize && session.subscriptions[1].0 == SID as usize, "registrations untouched, in order"),
+            1 => assert!(session.subscriptions.len() == n_other + 1 && session.subscriptions[n_other].0 == SID as usize, "registrations untouched, in order"),
             _ => {
-                assert!(session.subscriptions.len() >= 1 && session.subscriptions[session.subscriptions.len() - 1].0 == SID_OTHER as usize, "the other stream stays registered when one stream is dropped");
                 if sid == 1 {
-                    assert!(session.subscriptions.len() == 1, "the registration of a dropped stream is removed when a message for it arrives");
+                    assert!(session.subscriptions.len() == n_other, "the registration of a dropped stream is removed when a message for it arrives");
+                }
+                if two {
+                    assert!(session.subscriptions.len() >= 1 && session.subscriptions[session.subscriptions.len() - 1].0 == SID_OTHER as usize, "the other stream stays registered when one stream is dropped");
                 }
             }
         }
@@ -473,6 +488,9 @@ mod verif_in_ctx_pkt {
         ($name:ident, $qos:expr, $sid:expr, $scen:expr) => {
             #[kani::proof]
             #[kani::unwind(6)]
+            #[kani::stub(crate::codec::ack::AckTxBuilder::build, crate::codec::ack::verif_in_ack::build_stub)]
+            #[kani::stub(crate::codec::ack::AckTx::property_len, crate::codec::ack::verif_in_ack::property_len_stub)]
+            #[kani::stub(crate::codec::ack::AckTx::remaining_len, crate::codec::ack::verif_in_ack::remaining_len_stub)]
             pub(crate) fn $name() {
                 step_pub_body($qos, $sid, $scen);
             }
@@ -641,4 +659,81 @@ mod verif_in_ctx_pkt {
     pub(crate) fn ctx_reset_releases() {
         teardown_body(true);
     }
+
+    // ------------------------------------------------------------------ inbound PUBREL
+    //@ h name=step_pkt_pubrel props=C08,C09 tier=quick cap=small to=1200 mem=20
+    //@ claim: one Context::handle_packet step for an inbound PUBREL: exactly one PUBCOMP (70 02 <id>) with the PUBREL's packet identifier is written, the step returns Ok, and quota, waiters, retransmit queue and stream registrations are untouched
+    //@ bounds: every non-zero packet identifier; PUBREL without reason string / user properties; one outstanding waiter and retransmit entry; transport accepts the write at once
+    //@ assume: AckTxBuilder::build, AckTx::remaining_len and AckTx::property_len replaced by their contracts for the plain acknowledgement (harness/in_ack.rs), established on the real functions by enc_pingreq_acks and probe_ack_direct
+    //@ funcs: Context::handle_packet, Context::ack, AckTx::encode, AckTx::packet_len, TxPacketStream::write
+    #[kani::proof]
+    #[kani::unwind(6)]
+    #[kani::stub(crate::codec::ack::AckTxBuilder::build, crate::codec::ack::verif_in_ack::build_stub)]
+    #[kani::stub(crate::codec::ack::AckTx::property_len, crate::codec::ack::verif_in_ack::property_len_stub)]
+    #[kani::stub(crate::codec::ack::AckTx::remaining_len, crate::codec::ack::verif_in_ack::remaining_len_stub)]
+    pub(crate) fn step_pkt_pubrel() {
+        let mut cx = task_cx();
+        let mut tx = TxPacketStream::from(RecTx::new());
+        let r: u16 = kani::any();
+        let q: u16 = kani::any();
+        kani::assume(r >= 1 && q <= r);
+        let mut connection = Connection { disconnection_timestamp: None, session_expiry_interval: kani::any(), remote_receive_maximum: r, remote_max_packet_size: kani::any(), send_quota: q };
+        let mut session = Session { awaiting_ack: VecDeque::new(), subscriptions: VecDeque::new(), retrasmit_queue: VecDeque::new() };
+        let (s0, mut rcv0) = oneshot::channel::<Result<RxPacket, MqttError>>();
+        session.awaiting_ack.push_back((aid(PUBCOMP, 7), s0));
+        static STORED: [u8; 4] = [0x62, 2, 0, 7];
+        session.retrasmit_queue.push_back((aid(PUBCOMP, 7), Bytes::from_static(&STORED)));
+        let pid: u16 = kani::any();
+        kani::assume(pid != 0);
+        let pkt = RxPacket::Pubrel(ack_rx(pid, PubrelReason::default()));
+        let res = {
+            let mut f = core::pin::pin!(CtxR::handle_packet(&mut tx, &mut connection, &mut session, pkt));
+            match core::future::Future::poll(f.as_mut(), &mut cx) {
+                core::task::Poll::Ready(x) => x,
+                core::task::Poll::Pending => panic!("the transport accepts the acknowledgement at once"),
+            }
+        };
+        assert!(res.is_ok(), "an inbound PUBREL never ends run()");
+        assert!(out_n() == 4 && out(0) == 0x70 && out(1) == 2 && out(2) == (pid >> 8) as u8 && out(3) == pid as u8, "exactly one PUBCOMP with the PUBREL's packet identifier");
+        assert!(connection.send_quota == q && connection.remote_receive_maximum == r, "an inbound PUBREL does not touch the send quota");
+        assert!(session.awaiting_ack.len() == 1 && matches!(rcv0.try_recv(), Ok(None)) && session.retrasmit_queue.len() == 1 && session.subscriptions.is_empty(), "the client's own outstanding operations (same identifier space or not) are not affected");
+        kani::cover!(pid == 7, "same identifier as an outbound exchange");
+        kani::cover!(pid == 0xffff, "largest packet identifier");
+        core::mem::forget(res);
+        core::mem::forget(session);
+        core::mem::forget(rcv0);
+    }
+
+    // ------------------------------------------------------------------ Context::ack on its own (real code, no stubs)
+    macro_rules! ack_direct {
+        ($name:ident, $reason:ty, $hdr:expr) => {
+            #[kani::proof]
+            #[kani::unwind(8)]
+            pub(crate) fn $name() {
+                let mut cx = task_cx();
+                let mut tx = TxPacketStream::from(RecTx::new());
+                let id: u16 = kani::any();
+                kani::assume(id != 0);
+                {
+                    let mut f = core::pin::pin!(CtxR::ack::<$reason>(&mut tx, nz16(id)));
+                    match core::future::Future::poll(f.as_mut(), &mut cx) {
+                        core::task::Poll::Ready(Ok(())) => {}
+                        _ => panic!("the acknowledgement is written at once when the transport accepts it"),
+                    }
+                }
+                assert!(out_n() == 4 && out(0) == $hdr && out(1) == 2 && out(2) == (id >> 8) as u8 && out(3) == id as u8, "exactly <type> 02 <id hi> <id lo>");
+                kani::cover!(id == 0x0100, "identifier 256");
+                kani::cover!(id == 0xffff, "largest identifier");
+            }
+        };
+    }
+    //@ h name=ack_direct_puback props=C08 tier=quick cap=small to=600
+    //@ h name=ack_direct_pubrec props=C08 tier=quick cap=small to=600
+    //@ h name=ack_direct_pubcomp props=C08 tier=quick cap=small to=600
+    //@ claim: Context::ack::<R>(tx, id), the only place acknowledgements of inbound packets are produced, writes exactly one four-byte acknowledgement <type> 02 <id hi> <id lo> of the requested type carrying the given identifier, for every non-zero identifier (real builder, length and encode code; this also establishes the contracts used as stubs by step_pkt_pubrel)
+    //@ bounds: R in {PubackReason, PubrecReason, PubcompReason}; every non-zero packet identifier; transport accepts the write at once
+    //@ funcs: Context::ack, AckTxBuilder::build, AckTx::packet_len/remaining_len/property_len/encode, TxPacketStream::write
+    ack_direct!(ack_direct_puback, PubackReason, 0x40);
+    ack_direct!(ack_direct_pubrec, PubrecReason, 0x50);
+    ack_direct!(ack_direct_pubcomp, PubcompReason, 0x70);
 }
